@@ -8,8 +8,13 @@ import (
 	"encoding/hex"
 	"encoding/json"
 	"fmt"
+	"io/fs"
+	"strings"
+
+	agetest "c2sp.org/CCTV/age"
 
 	"filippo.io/age"
+	"filippo.io/age/armor"
 
 	"verif/sim/core"
 	"verif/sim/lib"
@@ -95,22 +100,40 @@ func (C05) Runs(tier string) int {
 func (C05) Meta() core.Meta {
 	return core.Meta{
 		Level: "exploration",
-		Rule: "enc case = (plaintext, recipient list over all four types + grease, random tape, armor on/off): the library writes the file under the tape; the random values are recovered by role from the file and located on the tape; the reference model must reproduce the file byte for byte from them (ssh-rsa stanzas are opened by a from-the-RFC OAEP decoder instead) and decrypt it with every identity. dec case = the reference encoder writes a file over the same space with its own random values and the library must decrypt it with every identity to the exact plaintext. corpus case = one frozen file (written by the pinned tree / the reference / upstream testdata; all types x armored/binary x |P| in {0,1,65535,65536,65537,131072}) must still have its recorded hash and decrypt to its recorded plaintext. big case = a 257-chunk file in both directions (counter carry into the second byte). Non-trivial = every case; distinct = distinct (mode, file skeleton, tape).",
+		Rule: "enc case = (plaintext, recipient list over all four types + grease, random tape, armor on/off): the library writes the file under the tape; the random values are recovered by role from the file and located on the tape; the reference model must reproduce the file byte for byte from them (ssh-rsa stanzas are opened by a from-the-RFC OAEP decoder instead) and decrypt it with every identity. dec case = the reference encoder writes a file over the same space with its own random values and the library must decrypt it with every identity to the exact plaintext. corpus case = one frozen file (written by the pinned tree / the reference; the 12 upstream CCTV success vectors are replayed as well; all types x armored/binary x |P| in {0,1,65535,65536,65537,131072}) must still have its recorded hash and decrypt to its recorded plaintext. big case = a 257-chunk file in both directions (counter carry into the second byte). Non-trivial = every case; distinct = distinct (mode, file skeleton, tape).",
 		Assumptions: []string{"the reference model (validated against the 114 CCTV vectors and testdata/example.age) is the specification", "chunk counters above 2^16 (4 GiB files) are out of reach"},
 		Real:        []string{"filippo.io/age Encrypt/Decrypt", "all four recipient/identity types", "armor", "internal/stream", "internal/format"},
 		Stub:        []string{"crypto/rand.Reader (tape)", "destination recorder", "reference encoder/decoder (sim/ref)"},
 		FaultKinds:  []string{},
-		Probes:      []string{"probe.enc_x25519", "probe.enc_scrypt", "probe.enc_ssh_ed25519", "probe.enc_ssh_rsa", "probe.enc_grease", "probe.enc_armor", "probe.dec_ref_written", "probe.corpus_entry", "probe.big_257_chunks", "probe.len_on_chunk_boundary", "probe.body_multiple_of_48"},
+		Probes:      []string{"probe.enc_x25519", "probe.enc_scrypt", "probe.enc_ssh_ed25519", "probe.enc_ssh_rsa", "probe.enc_grease", "probe.enc_armor", "probe.dec_ref_written", "probe.corpus_entry", "probe.cctv_vector", "probe.big_257_chunks", "probe.len_on_chunk_boundary", "probe.body_multiple_of_48"},
 	}
+}
+
+// cctvSuccess lists the CCTV vectors that must decrypt (expect: success).
+func cctvSuccess() []string {
+	ents, _ := fs.ReadDir(agetest.Vectors, ".")
+	var out []string
+	for _, e := range ents {
+		b, _ := fs.ReadFile(agetest.Vectors, e.Name())
+		if strings.HasPrefix(string(b), "expect: success\n") {
+			out = append(out, e.Name())
+		}
+	}
+	return out
 }
 
 func (C05) Generate(r *core.RNG, tier string, idx uint64) interface{} {
 	p := &C05Plan{}
 	nc := len(LoadCorpus())
+	nv := len(cctvSuccess())
 	switch {
 	case int(idx) < nc:
 		p.Mode = "corpus"
 		p.Corpus = int(idx)
+		return p
+	case int(idx) < nc+nv:
+		p.Mode = "cctv"
+		p.Corpus = int(idx) - nc
 		return p
 	case idx%4000 == 1000:
 		p.Mode = "big"
@@ -141,7 +164,7 @@ func (C05) Generate(r *core.RNG, tier string, idx uint64) interface{} {
 func (C05) Shrinks(plan interface{}) []interface{} {
 	p := plan.(*C05Plan)
 	var out []interface{}
-	if p.Mode == "corpus" || p.Mode == "big" {
+	if p.Mode == "corpus" || p.Mode == "big" || p.Mode == "cctv" {
 		return nil
 	}
 	add := func(f func(q *C05Plan)) {
@@ -218,6 +241,8 @@ func firstDiff(a, b []byte) int {
 func (e C05) Execute(plan interface{}, c *core.Ctx) *core.Verdict {
 	p := plan.(*C05Plan)
 	switch p.Mode {
+	case "cctv":
+		return e.execCCTV(p, c)
 	case "corpus":
 		return e.execCorpus(p, c)
 	case "enc", "big":
@@ -393,4 +418,65 @@ func MakeCorpus() ([]CorpusEntry, map[string][]byte) {
 		}
 	}
 	return es, stored
+}
+
+// execCCTV: the upstream success vectors are part of the fixed corpus.
+func (e C05) execCCTV(p *C05Plan, c *core.Ctx) *core.Verdict {
+	names := cctvSuccess()
+	if p.Corpus >= len(names) {
+		return nil
+	}
+	name := names[p.Corpus]
+	raw, _ := fs.ReadFile(agetest.Vectors, name)
+	var ids []age.Identity
+	var want string
+	armored := false
+	file := raw
+	for {
+		line, rest, ok := bytes.Cut(file, []byte("\n"))
+		if !ok {
+			return core.Fail("C05.corpus_harness", "vector %s has no payload", name)
+		}
+		file = rest
+		if len(line) == 0 {
+			break
+		}
+		k, v, _ := strings.Cut(string(line), ": ")
+		switch k {
+		case "payload":
+			want = v
+		case "identity":
+			i, err := age.ParseX25519Identity(v)
+			if err != nil {
+				return core.Fail("C05.corpus_harness", "vector %s: %v", name, err)
+			}
+			ids = append(ids, i)
+		case "passphrase":
+			i, err := age.NewScryptIdentity(v)
+			if err != nil {
+				return core.Fail("C05.corpus_harness", "vector %s: %v", name, err)
+			}
+			ids = append(ids, i)
+		case "armored":
+			armored = true
+		}
+	}
+	c.Stats.Inc("probe.cctv_vector")
+	c.Stats.Eval("cctv|"+name, true)
+	res := &lib.DecResult{}
+	var in = seam.NewSource(file, seam.Delivery{Mode: "whole"}, nil, nil).Reader()
+	if armored {
+		in = armor.NewReader(in)
+	}
+	r, err := age.Decrypt(in, ids...)
+	if err != nil {
+		return core.Fail("C05.corpus_decrypt", "upstream vector %s (expect: success) is rejected: %v", name, err)
+	}
+	lib.Drain(r, lib.ReadSched{Mode: "all"}, res, nil)
+	h := sha256.Sum256(res.Released)
+	c.Log.Add("cctv %s: released=%d err=%v", name, len(res.Released), res.Err)
+	if !res.Clean() || hex.EncodeToString(h[:]) != want {
+		return core.Fail("C05.corpus_decrypt", "upstream vector %s (expect: success) does not decrypt to its recorded payload: %v after %d bytes", name, res.Err, len(res.Released))
+	}
+	return nil
 }
